@@ -184,6 +184,9 @@ type scanMut struct {
 	Op   string `json:"op"` // write | rm | side | rmside | mkdir
 	Name string `json:"name"`
 	T    int64  `json:"t"` // seconds after the base time
+	// At: "" = before the scan starts; "pre" / "post" = while scan is inside loader.load, before resp. after the load
+	// itself (an indexer's rename landing during a scan; scan has stat'ed everything by then)
+	At string `json:"at,omitempty"`
 }
 
 type scanSeq struct {
@@ -261,19 +264,37 @@ func genScanSeq(r *gen.Rand) scanSeq {
 			t := int64(r.Range(0, 4))
 			switch r.Intn(10) {
 			case 0, 1, 2, 3:
-				ms = append(ms, scanMut{"write", names(), t})
+				ms = append(ms, scanMut{Op: "write", Name: names(), T: t})
 			case 4:
-				ms = append(ms, scanMut{"touch", names(), t})
+				ms = append(ms, scanMut{Op: "touch", Name: names(), T: t})
 			case 5, 6:
-				ms = append(ms, scanMut{"rm", names(), 0})
+				ms = append(ms, scanMut{Op: "rm", Name: names()})
 			case 7, 8:
-				ms = append(ms, scanMut{"side", names(), t})
+				ms = append(ms, scanMut{Op: "side", Name: names(), T: t})
 			case 9:
 				if r.Bool() {
-					ms = append(ms, scanMut{"rmside", names(), 0})
+					ms = append(ms, scanMut{Op: "rmside", Name: names()})
 				} else {
-					ms = append(ms, scanMut{"mkdir", "dir_v16.00000.zoekt", t})
+					ms = append(ms, scanMut{Op: "mkdir", Name: "dir_v16.00000.zoekt", T: t})
 				}
+			}
+		}
+		// half of the steps: the directory also changes while the scan is loading - mostly the very files it loads
+		if r.Bool() {
+			var written []string
+			for _, m := range ms {
+				if m.Op == "write" || m.Op == "side" || m.Op == "touch" {
+					written = append(written, m.Name)
+				}
+			}
+			for k := r.Range(1, 2); k > 0; k-- {
+				name := names()
+				if len(written) > 0 && r.Chance(3, 4) {
+					name = gen.Pick(r, written)
+				}
+				at := gen.Pick(r, []string{"pre", "post", "post"})
+				op := gen.Pick(r, []string{"write", "write", "touch", "side", "rmside", "rm"})
+				ms = append(ms, scanMut{Op: op, Name: name, T: int64(r.Range(5, 9)), At: at})
 			}
 		}
 		sq.Steps = append(sq.Steps, ms)
@@ -290,12 +311,31 @@ func runScanSeq(w *gen.Writer, sq scanSeq, class string) {
 	}
 	sc := search.VerifNewScanner(dir, nil)
 	for si, ms := range sq.Steps {
+		nmid := 0
 		for _, m := range ms {
-			applyMut(dir, m)
+			if m.At == "" {
+				applyMut(dir, m)
+			} else {
+				nmid++
+			}
 		}
 		old := sc.Timestamps()
-		listing := listDir(dir)
+		listing := listDir(dir) // what scan will Glob and Lstat: the edits below come after that
+		mid := func(at string) func([]string) {
+			return func([]string) {
+				for _, m := range ms {
+					if m.At == at {
+						applyMut(dir, m)
+					}
+				}
+			}
+		}
+		sc.SetLoadHooks(mid("pre"), mid("post"))
 		calls, err, pan := sc.Scan()
+		sc.SetLoadHooks(nil, nil)
+		if nmid > 0 {
+			w.Count("scan:directory-changed-during-load", 1)
+		}
 		in := fmt.Sprintf("scan %d %d %s %s", index.IndexFormatVersion, index.NextIndexFormatVersion, showListing(listing), showTS(old))
 		var impl string
 		c := gen.Case{In: in, Class: class, Detail: gen.Detail(map[string]any{"kind": "scan", "seq": sq, "step": si})}
@@ -1104,7 +1144,11 @@ func baseNames(ps []string) []string {
 // after each scan the loaded set, and what Search / List serve, must equal the directory.
 
 type rscanSeq struct {
-	Ops []string `json:"ops"` // W<repo>.<fmt> write/replace shard, M… write sidecar, D… remove sidecar, X… remove shard (+sidecar)
+	// W<repo>.<fmt> write/replace shard, M… write sidecar, D… remove sidecar, X… remove shard (+sidecar).
+	// A trailing '<' or '>' defers the edit into the next scan: it is made while that scan is inside loader.load, before
+	// ('<') or after ('>') the shards were opened - an indexer's rename landing during a scan. The scan is then followed
+	// by a second one (the fsnotify event of that edit), after which loaded set and directory must agree again.
+	Ops []string `json:"ops"`
 }
 
 func genRScan(r *gen.Rand) rscanSeq {
@@ -1113,7 +1157,15 @@ func genRScan(r *gen.Rand) rscanSeq {
 	for i := 0; i < n; i++ {
 		repo, fv := r.Intn(2), gen.Pick(r, []int{16, 16, 17})
 		op := gen.Pick(r, []string{"W", "W", "W", "M", "M", "D", "X"})
-		sq.Ops = append(sq.Ops, fmt.Sprintf("%s%d.%d", op, repo, fv))
+		at := ""
+		if i > 0 && r.Chance(1, 3) {
+			// usually the file the scan is about to load: the one the previous edit touched
+			if r.Chance(2, 3) {
+				fmt.Sscanf(sq.Ops[len(sq.Ops)-1][1:], "%d.%d", &repo, &fv)
+			}
+			at = gen.Pick(r, []string{"<", ">", ">"})
+		}
+		sq.Ops = append(sq.Ops, fmt.Sprintf("%s%d.%d%s", op, repo, fv, at))
 	}
 	return sq
 }
@@ -1143,7 +1195,7 @@ func runRScan(sq rscanSeq, class string) gen.Case {
 		return c
 	}
 	reloads := 0
-	for i, op := range sq.Ops {
+	apply := func(op string) {
 		var repo, fv int
 		fmt.Sscanf(op[1:], "%d.%d", &repo, &fv)
 		name := shardBase(repo, fv)
@@ -1159,7 +1211,7 @@ func runRScan(sq rscanSeq, class string) gen.Case {
 			}
 		case 'M':
 			if files[name] == nil {
-				continue
+				return
 			}
 			ver++
 			meta, _ := json.Marshal(&zoekt.Repository{Name: rn, ID: uint32(repo + 1), RawConfig: map[string]string{"mv": strconv.Itoa(ver)}})
@@ -1167,7 +1219,7 @@ func runRScan(sq rscanSeq, class string) gen.Case {
 			files[name].mv = ver
 		case 'D':
 			if files[name] == nil {
-				continue
+				return
 			}
 			os.Remove(filepath.Join(dir, name+".meta"))
 			files[name].mv = 0
@@ -1176,13 +1228,62 @@ func runRScan(sq rscanSeq, class string) gen.Case {
 			os.Remove(filepath.Join(dir, name+".meta"))
 			delete(files, name)
 		}
+	}
+	// group the script: every plain edit is followed by a scan; deferred edits ride inside the scan after them
+	type step struct {
+		plain     string
+		pre, post []string
+		last      int // index of the last op of this step
+	}
+	var steps []step
+	for i, op := range sq.Ops {
+		switch op[len(op)-1] {
+		case '<', '>':
+			if len(steps) == 0 {
+				steps = append(steps, step{})
+			}
+			st := &steps[len(steps)-1]
+			if op[len(op)-1] == '<' {
+				st.pre = append(st.pre, op[:len(op)-1])
+			} else {
+				st.post = append(st.post, op[:len(op)-1])
+			}
+			st.last = i
+		default:
+			steps = append(steps, step{plain: op, last: i})
+		}
+	}
+	// deferred edits belong to the scan *after* the plain edit that precedes them in the script
+	midScans := 0
+	for _, st := range steps {
+		i := st.last
+		if st.plain != "" {
+			apply(st.plain)
+		}
+		run := func(ops []string) func([]string) {
+			return func([]string) {
+				for _, o := range ops {
+					apply(o)
+				}
+			}
+		}
+		sc.SetLoadHooks(run(st.pre), run(st.post))
 		calls, err, pan := sc.Scan()
+		sc.SetLoadHooks(nil, nil)
 		if pan != "" || err != nil {
 			return fail(i, "scan-panic", "scan failed: %v %s", err, pan)
 		}
 		for _, cl := range calls {
 			if cl.Op == "load" {
 				reloads += len(cl.Keys)
+			}
+		}
+		if len(st.pre)+len(st.post) > 0 {
+			// the directory changed while that scan ran: the watcher gets an event and scans again; only then must the
+			// loaded set agree with the (now unchanging) directory
+			midScans++
+			if _, err, pan := sc.Scan(); pan != "" || err != nil {
+				return fail(i, "scan-panic", "scan failed: %v %s", err, pan)
 			}
 		}
 		// expected: newest format version present per repository
@@ -1234,6 +1335,9 @@ func runRScan(sq rscanSeq, class string) gen.Case {
 		}
 	}
 	c.Nontrivial = reloads >= 2
+	if midScans > 0 {
+		c.Class = class + ":directory-changed-during-load"
+	}
 	return c
 }
 
